@@ -106,7 +106,18 @@ def main():
                 V.violation(f'relabel-spec:{key}', f'relabelled pair Y={fy} X={gx}: score {s2!r} != specified {e2!r}', {'case': c, 'fy': fy, 'gx': gx})
             elif ((fy == gx) == (c['y'] == c['x'])) and not (abs(s2 - s) <= MC.tol(s, hy)):
                 V.violation(f'relabel-invariance:{key}', f'score changed from {s!r} to {s2!r} under injective relabelling', {'case': c, 'fy': fy, 'gx': gx})
-        V.count(evaluations=len(cases) + len(relreq), nontrivial=nontriv, traces=len(cases) + len(relreq) - len(crashes) - len(crashes2))
+        # the same relabelled pairs through the dispatcher importance_estimator.numba_mi by heuristic name (the route every
+        # pipeline score takes): argument handling there must not depend on the numeric size of the codes either
+        nm_idx = [i for i in range(len(relreq)) if i % 5 == 0]
+        got3, crashes3 = MC.real_eval('numba_mi', [[relreq[i][0], relreq[i][1], 'MI-numba-randomized' if relreq[i][3] else 'MI-numba', 1.0] for i in nm_idx])
+        for i, s3 in zip(nm_idx, got3):
+            c, s, name, side = relmeta[i]
+            fy, gx = relreq[i][0], relreq[i][1]
+            e2 = O.value(O.spec_score(fy, gx, c['c']), len(fy))
+            if s3 is None or not (abs(s3 - e2) <= MC.tol(e2, O.entropy(fy))):
+                V.violation(f'relabel-dispatcher:Y={c["y"]} X={c["x"]} c={c["c"]} relabel={name}/{side}',
+                            f'numba_mi on the relabelled pair Y={fy} X={gx}: {s3!r} != specified {e2!r} (original pair scores {s!r})', {'case': c, 'fy': fy, 'gx': gx})
+        V.count(evaluations=len(cases) + len(relreq) + len(nm_idx), nontrivial=nontriv, traces=len(cases) + len(relreq) + len(nm_idx) - len(crashes) - len(crashes2))
         V.notes[f'{label}_equal_sum_nonidentical_corrected_cases'] = eqsum
         if eqsum == 0:
             raise E.MachineryError('no equal-sum non-identical pair explored (vacuous shortcut clause)')
